@@ -140,6 +140,11 @@ def run(ctx):
         n = int(np.prod(shape))
         tri = np.array([gen_arbitrary(rng) if rng.random() < 0.5 else triple(*gen_geometric(rng)) for _ in range(n)])
         v = [tri[:, j].reshape(shape).copy() for j in range(3)]
+        if len(shape) >= 2 and rng.random() < 0.5:
+            # the same values in another memory layout (column-major copy, transposed view of the transposed copy): LAPACK output,
+            # DataFrame.values, x.T — the layout of an array is not part of its value
+            v = [np.asfortranarray(a) if rng.random() < 0.5 else np.ascontiguousarray(np.moveaxis(a, 0, -1)).transpose(
+                [len(shape) - 1] + list(range(len(shape) - 1))) for a in v]
         keep = [x.copy() for x in v]
         sym = rng.random() < 0.5
         eng['cases'] += 1
